@@ -7,7 +7,7 @@ from sa.engine.callgraph import calls_in, resolve_call
 from sa.engine.cfg import CFG
 from sa.engine.context import Ctx
 from sa.engine.guards import path_conditions
-from sa.engine.loader import AnalysisError, anorm, dotted, local_names, norm, short, walk_own
+from sa.engine.loader import AnalysisError, anorm, dotted, local_names, norm, short, walk_own, is_noise
 from sa.engine.loops import LoopAnalysis
 from sa.engine.report import Finding, RuleReport
 from sa.rules.c14 import _may_raise
@@ -48,7 +48,7 @@ def rule_join(ctx: Ctx) -> RuleReport:
     rep = RuleReport("C03-JOIN", "get_full_text() == strip(newline-join(unit texts)) for the documented formats")
     dt = ctx.p.module(DT)
     helper = ctx.p.func(DT, "_join_unit_text")
-    hb = [anorm(s, helper.node) for s in helper.node.body if not (isinstance(s, ast.Expr) and isinstance(s.value, ast.Constant))]
+    hb = [anorm(s, helper.node) for s in helper.node.body if not is_noise(s)]
     prm = helper.node.args.args[0].arg if helper.node.args.args else "units"
     if hb == [f"return '\\n'.join((v0.get_text() for v0 in {prm})).strip()"]:
         rep.ok({"_join_unit_text": "strip(newline-join(get_text))"})
@@ -63,7 +63,7 @@ def rule_join(ctx: Ctx) -> RuleReport:
         if g is None or iu is None:
             raise AnalysisError(f"C03-JOIN: {cname} lacks get_full_text / iterate_units")
         rep.unit(g.key)
-        body = [s for s in g.node.body if not (isinstance(s, ast.Expr) and isinstance(s.value, ast.Constant))]
+        body = [s for s in g.node.body if not is_noise(s)]
         ok = False
         if len(body) == 1 and isinstance(body[0], ast.Return) and isinstance(body[0].value, ast.Call):
             call = body[0].value
